@@ -25,3 +25,9 @@ Theorem C05_purge : forall s x k, tables_ok s ->
   = match get_doc s k with Some r => if is_some (r_value r) then Some r else None | None => None end.
 Proof. exact C05_purge_exact. Qed.
 Print Assumptions C05_purge.
+
+(* the whole executable checker of C05 (row rules and the purge rule) accepts every history of the model *)
+From Rosmar Require Import KvTrace.
+Theorem C05_holds_with_purge : forall c : scase, wf_case c -> chk_C05_full (c, srun c) = true.
+Proof. exact C05_full_sound. Qed.
+Print Assumptions C05_holds_with_purge.
